@@ -36,7 +36,11 @@ def cases(draw, big=False):
                 storage=draw(st.sampled_from(["f8", "f8", "f4", "i2"])),
                 field=draw(st.sampled_from(["noise", "noise", "linear", "linear_z"])),
                 seed=draw(st.integers(0, 10**6)), npos=draw(st.sampled_from([24, 48])),
-                scalars=draw(st.sampled_from([[], ["temp"], ["temp", "salt"]])))
+                scalars=draw(st.sampled_from([[], ["temp"], ["temp", "salt"]])),
+                # which of the two frames is sampled (step 0 = first frame, step 4 = second frame), whether the
+                # second frame lives in a file of its own, and how that file is stored (own packing parameters)
+                frame=draw(st.sampled_from([0, 0, 1])), two_files=draw(st.booleans()),
+                storage2=draw(st.sampled_from(["f8", "f4", "i2", "i2b"])))
 
 
 def build_fields(case, G):
@@ -114,27 +118,28 @@ def positions(case, G, sub):
     return X, Y, Z
 
 
-def ladim_sample(d, fname, sub, case, X, Y, Z):
+def ladim_sample(d, fname, sub, case, X, Y, Z, ffile=None, nupdates=1):
     from ladim.model import init_module
 
     modules = {}
     ivars = {nm: "float" for nm in case["scalars"]}
     modules["state"] = init_module("state", {"instance_variables": ivars,
                                              "default_values": {nm: 0.0 for nm in ivars}}, modules)
-    modules["time"] = init_module("time", {"start": e2e.iso(scen.T0), "stop": e2e.iso(scen.T0 + scen.S(DT)),
+    modules["time"] = init_module("time", {"start": e2e.iso(scen.T0), "stop": e2e.iso(scen.T0 + scen.S(4 * DT)),
                                            "dt": DT}, modules)
     gconf = {"filename": str(fname)}
     if sub is not None:
         gconf["subgrid"] = list(sub)
     modules["grid"] = init_module("grid", gconf, modules)
-    fconf = {"filename": str(fname)}
+    fconf = {"filename": str(ffile or fname)}
     if case["scalars"]:
         fconf["extra_forcing"] = list(case["scalars"])
     modules["forcing"] = init_module("forcing", fconf, modules)
     state, timer, force = modules["state"], modules["time"], modules["forcing"]
     state.append(X=X, Y=Y, Z=Z)
-    timer.update()
-    force.update()
+    for _ in range(nupdates):
+        timer.update()
+        force.update()
     u, v = force.velocity(X, Y, Z)
     out = dict(u=np.array(u), v=np.array(v), vu=np.array(force.variables["u"]), vv=np.array(force.variables["v"]))
     for nm in case["scalars"]:
@@ -153,8 +158,14 @@ def oracle(case) -> core.CaseResult:
     G = roms.make_grid(jm, im, N=N, h=h, hval=case["hval"], mask=mask, dx=800.0, levels=case["levels"],
                        Vtransform=case["vt"], hc=min(3.0, case["hval"]), seed=case["seed"])
     U, V, extra, lin = build_fields(case, G)
-    storage = {"f8": "f8", "f4": "f4", "i2": ("i2", 1.0e-4 if case["field"] != "linear_z" else 2e-4)}[case["storage"]]
-    if case["storage"] == "i2":
+    stor = {"f8": "f8", "f4": "f4", "i2": ("i2", 1.0e-4 if case["field"] != "linear_z" else 2e-4),
+            "i2b": ("i2", 2.5e-4)}
+    storage = stor[case["storage"]]
+    fr = case.get("frame", 0)
+    two = bool(case.get("two_files"))
+    st2 = case.get("storage2", "f8") if two else case["storage"]
+    storage2 = stor[st2]
+    if case["storage"] == "i2" or st2 in ("i2", "i2b"):
         extra = {k: np.clip(v, -3, 3) for k, v in extra.items()}
     sub_eff = case["sub"] or [1, im - 1, 1, jm - 1]
     sub_cfg = case["sub"]
@@ -164,21 +175,35 @@ def oracle(case) -> core.CaseResult:
     res.cls(f"storage_{case['storage']}")
     res.cls(f"field_{case['field']}")
     res.cls("N1" if N == 1 else "N>=2")
+    res.cls(f"frame{fr}" + ("_own_file_" + ("other_storage" if st2 != case["storage"] else "same_storage") if two else ""))
     with e2e.workdir() as d:
-        dec = roms.write_roms(d / "f.nc", G, [scen.T0, scen.T0 + scen.S(4 * DT)], U, V, extra=extra, storage=storage)
+        times = [scen.T0, scen.T0 + scen.S(4 * DT)]
+        if two:
+            gfile, ffile = d / "f_000.nc", d / "f_*.nc"
+            d0 = roms.write_roms(gfile, G, times[:1], U[:1], V[:1], extra={k: v[:1] for k, v in extra.items()},
+                                 storage=storage)
+            d1 = roms.write_roms(d / "f_001.nc", G, times[1:], U[1:], V[1:], extra={k: v[1:] for k, v in extra.items()},
+                                 storage=storage2)
+            dec = {k: [d0[k][0], d1[k][0]] for k in d0}
+        else:
+            gfile = ffile = d / "f.nc"
+            dec = roms.write_roms(gfile, G, times, U, V, extra=extra, storage=storage)
         X, Y, Z = positions(case, G, sub_eff)
+        nup = 1 if fr == 0 else 5   # Model.update order: clock, forcing; step 4 is the second frame
         try:
-            got = ladim_sample(d, d / "f.nc", sub_cfg, case, X, Y, Z)
-            got_full = ladim_sample(d, d / "f.nc", None, case, X, Y, Z) if case["sub"] else None
+            got = ladim_sample(d, gfile, sub_cfg, case, X, Y, Z, ffile=ffile, nupdates=nup)
+            got_full = ladim_sample(d, gfile, None, case, X, Y, Z, ffile=ffile, nupdates=nup) if case["sub"] else None
         except BaseException as e:  # noqa: BLE001
             import traceback
 
             res.fail("sampling_raises", f"{e!r}\n{traceback.format_exc()[-700:]}")
             return res
     zr = roms.grid_zr(G)
-    U0, V0 = np.asarray(dec["u"][0], float), np.asarray(dec["v"][0], float)
+    U0, V0 = np.asarray(dec["u"][fr], float), np.asarray(dec["v"][fr], float)
     scale = max(1.0, float(np.max(np.abs(U0))), float(np.max(np.abs(V0))))
-    tol = (1e-12 if case["storage"] == "f8" else 8 * 2.0**-23) * scale
+    st_fr = st2 if fr == 1 else case["storage"]
+    # a frame reached through the per-step increments (u += dU, four times) carries a few more roundings
+    tol = ((1e-12 if (st_fr == "f8" and case["storage"] == "f8") else 8 * 2.0**-23) * scale) * (1 if fr == 0 else 3)
     nontriv = 0
     for n in range(len(X)):
         cand = list(itertools.product(roms.cell_candidates(X[n]), roms.cell_candidates(Y[n])))
@@ -200,9 +225,9 @@ def oracle(case) -> core.CaseResult:
                   f"forcing.variables u/v differ from velocity() at particle {n}")
         if lin is not None:
             zc = min(max(-Z[n], zr[0, cell[1], cell[0]]), zr[-1, cell[1], cell[0]])
-            wu = lin["u"][0] + lin["u"][1] * X[n] + lin["u"][2] * Y[n] + lin["gz"] * zc
+            wu = lin["u"][0] + lin["u"][1] * X[n] + lin["u"][2] * Y[n] + lin["gz"] * zc + (0.3 if fr == 1 else 0.0)
             wv = lin["v"][0] + lin["v"][1] * X[n] + lin["v"][2] * Y[n] + lin["gz"] * zc
-            ltol = tol + (2e-4 if case["storage"] == "i2" else 0) + 1e-9
+            ltol = tol + (3e-4 if st_fr in ("i2", "i2b") else 0) + 1e-9
             res.check(abs(got["u"][n] - wu) <= ltol and abs(got["v"][n] - wv) <= ltol, "linear_exact",
                       f"linear field not reproduced at ({X[n]}, {Y[n]}, {Z[n]}): got ({got['u'][n]}, {got['v'][n]}) "
                       f"want ({wu}, {wv})")
@@ -212,7 +237,7 @@ def oracle(case) -> core.CaseResult:
                       f"pos ({X[n]}, {Y[n]}): subgrid {case['sub']} gives ({got['u'][n]}, {got['v'][n]}), "
                       f"full grid ({got_full['u'][n]}, {got_full['v'][n]})")
         for nm in case["scalars"]:
-            F = np.asarray(dec[nm][0], float)
+            F = np.asarray(dec[nm][fr], float)
             cands = []
             for ci, cj in cand:
                 # a depth within rounding of a level may be bracketed from either side
